@@ -189,6 +189,9 @@ func doCall(ctx context.Context, s p9p.Session, k callKind, uid int) callRes {
 		if err != nil {
 			return callRes{uid: -1, err: err}
 		}
+		if n < 0 || n > len(buf) {
+			return callRes{uid: -3, desc: fmt.Sprintf("Read returned n=%d for a %d-byte buffer", n, len(buf))}
+		}
 		var u int
 		fmt.Sscanf(string(buf[:n]), "uid-%d", &u)
 		return callRes{uid: u, desc: string(buf[:n])}
